@@ -718,9 +718,15 @@ pub fn check_c13_window(bytes: &[u8], s: &NormalizerSettings, real_lines: &[Stri
 /// C13 (text part): one text in every encoding that round-trips it, each probed alone with the
 /// fall-back off and a covering window: same accept / reject and same chaos
 pub fn check_c13_text(text: &str, s: &NormalizerSettings, with_bom: bool) -> (Vec<Found>, usize) {
+    check_c13_text_in(text, s, with_bom, None)
+}
+
+/// the same over a given list of encodings, WITHOUT the size limit (inputs above 1,000,000 bytes: lazy mode)
+pub fn check_c13_text_in(text: &str, s: &NormalizerSettings, with_bom: bool, only: Option<&[String]>) -> (Vec<Found>, usize) {
     let mut out = vec![];
     let mut seen: Vec<(String, Option<u32>)> = vec![];
-    for enc in supported() {
+    let pool: Vec<String> = match only { Some(l) => l.to_vec(), None => supported() };
+    for enc in pool {
         let codec = match encoding_from_whatwg_label(&enc) {
             Some(c) => c,
             None => continue,
@@ -753,7 +759,7 @@ pub fn check_c13_text(text: &str, s: &NormalizerSettings, with_bom: bool) -> (Ve
         r.enable_fallback = false;
         r.steps = 1;
         r.chunk_size = bytes.len();
-        if bytes.len() > charset_normalizer_rs::consts::TOO_BIG_SEQUENCE {
+        if bytes.len() > charset_normalizer_rs::consts::TOO_BIG_SEQUENCE && only.is_none() {
             continue;
         }
         match run_real(&bytes, &r) {
